@@ -87,6 +87,7 @@ type sim struct {
 
 	nMirrorReplace int // Lock.Replace calls on SELF's mirror key in this history
 	mon            *monitors
+	sides          []*monitors // the monitors of the other mirrored logs of the instance
 	stats          map[string]int
 }
 
@@ -241,6 +242,14 @@ func (b simBackend) Upload(ctx context.Context, key string, data []byte, opts *c
 			}
 			s.mon.public(s, data)
 		}
+		for _, sm := range s.sides {
+			if key == sm.prefix+"checkpoint" {
+				if c, _, _, pok := parseNote(data); pok {
+					sm.published(c.size)
+				}
+				sm.public(s, data)
+			}
+		}
 	}
 	if rel, under := strings.CutPrefix(key, s.prefix); under && s.inEvent {
 		k, kind := showKey(rel)
@@ -329,6 +338,14 @@ func (l simLock) Replace(ctx context.Context, old ctlog.LockedCheckpoint, new []
 			s.mon.servable(s, new, "servable") // BEFORE applying it
 			if c, _, _, pok := parseNote(new); pok {
 				s.mon.recorded(c.size)
+			}
+		}
+	}
+	for _, sm := range s.sides {
+		if o.id == sm.mkey && can && f != fFail {
+			sm.servable(s, new, "servable") // BEFORE applying it
+			if c, _, _, pok := parseNote(new); pok {
+				sm.recorded(c.size)
 			}
 		}
 	}
